@@ -13,9 +13,11 @@ import (
 	"math/big"
 	"net"
 	"os"
+	"path/filepath"
 	"strconv"
 	"sync"
 	"sync/atomic"
+	"syscall"
 	"time"
 
 	lime "github.com/takenet/lime-go"
@@ -210,13 +212,17 @@ func TransportPair(kind string, bufSize int) (ct, st lime.Transport, p *Pair, er
 
 var portSeq uint32
 
-// freeTCPAddr returns a loopback address nobody listens on.  Ports come from a per-process slice of the range
-// below the kernel's ephemeral ports, so that neither another harness process nor an outgoing connection of
-// any process takes the port between this probe and the caller's own Listen.
+// freeTCPAddr returns a loopback address nobody listens on.  Ports come from a slice of the range below the kernel's
+// ephemeral ports that this process holds exclusively: the slice is claimed by an advisory lock on a file, held until
+// the process ends, so that no other harness process - several checks may run at the same time, each with child
+// processes - ever listens on a port this process has just stopped listening on (a client that is still dialling
+// would find itself talking to a server of another scenario), and no outgoing connection of any process takes the
+// port between this probe and the caller's own Listen.
 func freeTCPAddr() (*net.TCPAddr, error) {
+	portSlotOnce.Do(claimPortSlot)
 	for i := 0; i < 100; i++ {
 		n := atomic.AddUint32(&portSeq, 1)
-		port := 10000 + (os.Getpid()%220)*100 + int(n%100)
+		port := 10000 + portSlot*100 + int(n%100)
 		l, err := net.Listen("tcp", fmt.Sprintf("127.0.0.1:%d", port))
 		if err != nil {
 			continue
@@ -232,6 +238,33 @@ func freeTCPAddr() (*net.TCPAddr, error) {
 	a := l.Addr().(*net.TCPAddr)
 	_ = l.Close()
 	return a, nil
+}
+
+var (
+	portSlotOnce sync.Once
+	portSlot     int
+	portSlotFile *os.File // kept open: the lock lives as long as the process
+)
+
+const portSlots = 220
+
+func claimPortSlot() {
+	dir := filepath.Join(os.TempDir(), "verif-limeobs-ports")
+	_ = os.MkdirAll(dir, 0o777)
+	start := os.Getpid() % portSlots
+	for i := 0; i < portSlots; i++ {
+		k := (start + i) % portSlots
+		f, err := os.OpenFile(filepath.Join(dir, fmt.Sprintf("slot-%03d.lock", k)), os.O_CREATE|os.O_RDWR, 0o666)
+		if err != nil {
+			continue
+		}
+		if syscall.Flock(int(f.Fd()), syscall.LOCK_EX|syscall.LOCK_NB) == nil {
+			portSlot, portSlotFile = k, f
+			return
+		}
+		_ = f.Close()
+	}
+	portSlot = start // every slice is taken (or the directory is not writable): fall back to the process id
 }
 
 var sidSeq int64
